@@ -195,6 +195,9 @@ class Interp:
             return v.m_len(self)
         if isinstance(v, Instance) and v.store is not None:
             return self.length(v.store)
+        if isinstance(v, Sym) and "model.val_len" in self.ext:
+            # an opaque value known (on this path) to be a list: the contract supplies its length
+            return self.ext["model.val_len"](self, [v], {})
         raise Unsupported(f"len of {type(v).__name__}")
 
     def contains(self, container, item):
